@@ -120,7 +120,7 @@ pub fn check_cli(dict: &[WR], tag: &str) -> Option<(String, String)> {
             if std::fs::read(&csv2).ok() != std::fs::read(&csv).ok() {
                 return Err(("cli-combined-dump-differs".into(), "the dump written next to a replacement differs from the dump written alone".into()));
             }
-            let (rc, err) = run_tool(&["--model-in", &min, "--model-out", &mout3]).unwrap_or_else(|e| machinery_error(&e));
+            let (rc, err) = run_tool(&["--model-in", &min, "--model-out", &mout3, "--zstd-workers", "2"]).unwrap_or_else(|e| machinery_error(&e));
             if rc != 0 {
                 return Err(("cli-copy-failed".into(), format!("--model-in/--model-out alone exited with {rc}: {err}")));
             }
